@@ -102,8 +102,13 @@ def check_split(seed, tier, acc):
     d = Dir()
     vs = []
     try:
-        stems = ['main'] + ['part%d_%s' % (i, r.choice(['geo', 'nav', 'x'])) for i in range(1, len(files))]
-        paths = [d.write('src/%s.i' % s, c) for s, c in zip(stems, files)]
+        # additional files in an order that is not the sorted one, upper / lower case, `.i` or `.h`
+        pool = ['zeta', 'alpha', 'Mid', 'geo2', 'nav', 'x9', 'Beta', 'part1', 'part10', 'part2', 'core_types']
+        r.shuffle(pool)
+        stems = ['main'] + pool[:len(files) - 1]
+        exts = ['.i'] + [r.choice(['.i', '.i', '.h']) for _ in files[1:]]
+        paths = [d.write('src/%s%s' % (s, e), c) for s, e, c in zip(stems, exts, files)]
+        acc.count('additional_files_dot_h', sum(1 for e in exts if e == '.h'))
         opts = options(r, mod)
         top = [''] + opts['top']
         ign = opts['ignore'] or []
@@ -218,8 +223,11 @@ def check_script(seed, tier, acc):
     env['PYTHONPATH'] = REPO
     try:
         stems = ['main'] + ['extra%d' % i for i in range(1, len(files))]
-        paths = [d.write('src/%s.i' % s, c) for s, c in zip(stems, files)]
-        tplp = d.write('src/tpl.tpl', tool.TPL)
+        # the source directory may carry a blank or a comma (the file list is separated by ';' only)
+        srcdir = r.choice(['src', 'src', 'My Projects/src', 'robot,v2', 'a b,c'])
+        acc.count('script_srcdir:' + ('plain' if srcdir == 'src' else 'blank_or_comma'))
+        paths = [d.write('%s/%s.i' % (srcdir, s), c) for s, c in zip(stems, files)]
+        tplp = d.write('%s/tpl.tpl' % srcdir, tool.TPL)
         top = [''] + opts['top']
         ign = opts['ignore']
         cwd_s = os.path.join(d.root, 'cwd_script')
